@@ -1011,6 +1011,17 @@ def rule_r10(repo, run):
     run.floor(R, "blocks with forced contents", n, 2)
 
 
+
+def rule_r11(repo, run):
+    R = run.rule("C12.R11", "a block is found again by its name: the names of the per-function blocks are the wrapper names, "
+                            "so two wrappers never share a block (C08.R2: the name templates keep every distinguishing field; "
+                            "C08.R9: an overload keeps its suffix in the Python wrapper)")
+    from checks import c08
+    from sa.report import import_rules
+    import_rules(run, R, c08, repo, {"C08.R2"}, only=lambda c: "name" in c.lower())
+    import_rules(run, R, c08, repo, {"C08.R9"}, only=lambda c: "suffix" in c)
+
+
 def run(repo, run, tier):
     rule_r1(repo, run)
     rule_r2(repo, run)
@@ -1023,3 +1034,4 @@ def run(repo, run, tier):
     rule_r8(repo, run)
     rule_r9(repo, run)
     rule_r10(repo, run)
+    rule_r11(repo, run)
